@@ -455,10 +455,10 @@ theorem kill_seen {s s' : EntSpec} {es : List Entity} {r : KillRes}
 
 /-- `World::delete_entities` on logged handles. -/
 theorem inv_deleteEntities {w : World} (h : WInv w) (es : List Entity)
-    (hes : ∀ e, e ∈ es → e ∈ w.ent.log.toList) :
+    (hes : ∀ s, WR w.ent s → ∀ e, e ∈ es → e ∈ s.seen) :
     WInv (w.deleteEntities es).1 ∧ ∃ r, (w.deleteEntities es).2 = .e (.kill r) := by
   obtain ⟨s, hs⟩ := h.ent
-  have hseen : ∀ e, e ∈ es → e ∈ s.seen := fun e he => hs.logSeen e (hes e he)
+  have hseen : ∀ e, e ∈ es → e ∈ s.seen := hes s hs
   obtain ⟨a', r, s', hk, hstep, hR⟩ := kill_refine hs.r es hseen
   obtain ⟨a'', r'', hk', hocc⟩ := kill_occ hs.r es hseen
   rw [hk] at hk'; cases hk'
@@ -613,6 +613,136 @@ theorem inv_lazyCreate {w : World} (h : WInv w) (comps : List (Nat × Int)) :
         · exact h1.queueOk act hact x hx
         · simp only [LazyAct.ents, List.mem_singleton] at hx; subst hx; exact he1
     exact key comps _ hinv1 (by simp only [hlog, Array.toList_push, List.mem_append, List.mem_singleton, or_true])
+
+
+/-! ### Restricted join -/
+
+theorem isAlive_init (id : Nat) : Alloc.init.isAlive ⟨id, 1⟩ = true := by
+  simp [Alloc.isAlive, Alloc.curGen, Alloc.genAt, Alloc.init]
+
+/-- The per-item mutable access of a restricted join is `Masked.getMut` without the aliveness
+    test (the join only visits members). -/
+theorem rjoin_access_good {m : Masked} (hg : m.Good) {id : Nat} (hmem : m.mask.mem id = true)
+    (d : Nat) (wr : Option Int) :
+    ∃ old, m.inner.get id = .ok old ∧
+      (match wr with
+       | none => ({ m with inner := m.inner.touch id d } : Masked).Good
+       | some v => ∃ inner', (m.inner.touch id d).poke id v = .ok inner' ∧ ({ m with inner := inner' } : Masked).Good) := by
+  obtain ⟨r, hr, hgr⟩ := Masked.good_getMut hg Alloc.init ⟨id, 1⟩ d wr
+  simp only [Masked.getMut, hmem, isAlive_init, Bool.and_self, if_true] at hr
+  cases hget : m.inner.get id with
+  | ok old =>
+    refine ⟨old, rfl, ?_⟩
+    simp only [hget, Masked.lift] at hr
+    cases wr with
+    | none => simp only at hr ⊢; cases hr; exact hgr
+    | some v =>
+      simp only at hr ⊢
+      cases hp : (m.inner.touch id d).poke id v with
+      | ok inner' => simp only [hp] at hr; cases hr; exact ⟨inner', rfl, hgr⟩
+      | panic w => simp [hp] at hr
+      | ub w => simp [hp] at hr
+  | panic w => simp [hget, Masked.lift] at hr
+  | ub w => simp [hget, Masked.lift] at hr
+
+theorem inv_rjoinLoop (k : Nat) (mutable : Bool) : ∀ (ids : List Nat) (w : World) (acts : List RAct)
+    (acc : List (Nat × ItemRes)), WInv w →
+    (∀ m, w.store? k = some m → ∀ id, id ∈ ids → m.mask.mem id = true) →
+    WInv (rjoinLoop w k mutable ids acts acc).1 := by
+  intro ids
+  induction ids with
+  | nil => intro w acts acc h _; exact h
+  | cons id ids ih =>
+    intro w acts acc h hids
+    simp only [rjoinLoop]
+    cases hst : w.store? k with
+    | none => exact h
+    | some m =>
+      simp only
+      have hmem : m.mask.mem id = true := hids m hst id (by simp)
+      have hrest : ∀ m', w.store? k = some m' → ∀ id', id' ∈ ids → m'.mask.mem id' = true :=
+        fun m' hm' id' hid' => hids m' hm' id' (by simp [hid'])
+      have hlt := lt_size_of_store? hst
+      -- replacing the storage by one with the same mask keeps the side condition
+      have hkeep : ∀ (m2 : Masked), m2.mask = m.mask → m2.Good →
+          WInv (w.setStore k m2) ∧ (∀ m', (w.setStore k m2).store? k = some m' → ∀ id', id' ∈ ids → m'.mask.mem id' = true) := by
+        intro m2 hmask hg2
+        refine ⟨by simpa [destroy] using inv_setStore h hst hg2 (fun i hi => Or.inl (hmask ▸ hi)) [], ?_⟩
+        intro m' hm' id' hid'
+        rw [store?_setStore] at hm'
+        simp only [hlt, and_self, if_true] at hm'
+        cases hm'
+        rw [hmask]; exact hrest m hst id' hid'
+      cases hact : acts.head?.getD RAct.skip with
+      | skip => simp only; exact ih w _ _ h hrest
+      | get =>
+        simp only
+        cases m.inner.get id with
+        | ok v => exact ih w _ _ h hrest
+        | panic why => exact h
+        | ub why => exact h
+      | getMut d wr =>
+        simp only
+        cases mutable with
+        | false => simp only [Bool.not_false, if_true]; exact ih w _ _ h hrest
+        | true =>
+          simp only [Bool.not_true, Bool.false_eq_true, if_false]
+          obtain ⟨old, hget, hacc⟩ := rjoin_access_good (h.good k m hst) hmem d wr
+          simp only [hget]
+          cases wr with
+          | none =>
+            simp only at hacc ⊢
+            obtain ⟨h1, h2⟩ := hkeep { m with inner := m.inner.touch id d } rfl hacc
+            exact ih _ _ _ h1 h2
+          | some v =>
+            simp only at hacc ⊢
+            obtain ⟨inner', hp, hg'⟩ := hacc
+            simp only [hp]
+            obtain ⟨h1, h2⟩ := hkeep { m with inner := inner' } rfl hg'
+            exact ih _ _ _ h1 h2
+      | getOther hd =>
+        simp only
+        cases resolve w.ent.log hd with
+        | none => exact ih w _ _ h hrest
+        | some e =>
+          simp only
+          cases m.getOther w.ent.alloc e with
+          | ok r => exact ih w _ _ h hrest
+          | panic why => exact h
+          | ub why => exact h
+      | getOtherMut hd d wr =>
+        simp only
+        cases mutable with
+        | false => simp only [Bool.not_false, if_true]; exact ih w _ _ h hrest
+        | true =>
+          simp only [Bool.not_true, Bool.false_eq_true, if_false]
+          cases resolve w.ent.log hd with
+          | none => exact ih w _ _ h hrest
+          | some e =>
+            simp only
+            obtain ⟨r, hr, hg'⟩ := Masked.good_getMut (h.good k m hst) w.ent.alloc e d wr
+            simp only [hr]
+            obtain ⟨h1, h2⟩ := hkeep r.st (Masked.getMut_mask hr) hg'
+            exact ih _ _ _ h1 h2
+
+/-! ### Teardown -/
+
+theorem inv_dropWorld {w : World} (h : WInv w) (fuel : Nat) : WInv (step fuel w .dropWorld).1 := by
+  simp only [step]
+  cases w.dropStores w.table [] with
+  | ok d =>
+    simp only
+    refine ⟨h.ent, by simp [numKinds], ?_, ?_, ?_, by simp⟩
+    all_goals
+      intro k ms hk
+      exfalso
+      simp only [store?] at hk
+      by_cases hk' : k < numKinds
+      · simp [Array.getElem?_replicate, hk'] at hk
+      · simp [Array.getElem?_replicate, hk'] at hk
+  | panic why => exact h
+  | ub why => exact h
+
 
 end World
 end SpecsModel
